@@ -203,6 +203,50 @@ VARIANTS["C17"] = [
     R("generator-object-instead-of-global", SCG, "    if seed is not None:\n        np.random.seed(seed)\n\n    if (np.any(np.array(ps) < 0)) or (np.any(np.array(ps) > 1)):\n        raise ValueError(\"All elements of ps must be between 0 and 1 included.\")\n\n    nodes = range(N)\n    simplices = []\n\n    for i, p in enumerate(ps):\n        d = i + 1  # order, ps[0] is prob of edges (d=1)\n\n        potential_simplices = combinations(nodes, d + 1)\n        n_comb = comb(N, d + 1, exact=True)\n        mask = np.random.random(size=n_comb) <= p", "    rng = np.random.default_rng(seed)\n\n    if (np.any(np.array(ps) < 0)) or (np.any(np.array(ps) > 1)):\n        raise ValueError(\"All elements of ps must be between 0 and 1 included.\")\n\n    nodes = range(N)\n    simplices = []\n\n    for i, p in enumerate(ps):\n        d = i + 1  # order, ps[0] is prob of edges (d=1)\n\n        potential_simplices = combinations(nodes, d + 1)\n        n_comb = comb(N, d + 1, exact=True)\n        mask = rng.random(size=n_comb) <= p"),
 ]
 
+# --------------------------------------------------------------------------- C01
+VARIANTS["C01"] = [
+    M("remove_edge-keeps-attr-record", HG, "        del self._edge[idx]\n        del self._edge_attr[idx]\n\n    def remove_edges_from", "        del self._edge[idx]\n\n    def remove_edges_from", "R-ATTR", "Hypergraph.remove_edge"),
+    M("remove_edge-no-purge-loop", HG, "        for node in self._edge[idx].copy():\n            self._node[node].remove(idx)\n        del self._edge[idx]\n        del self._edge_attr[idx]\n\n    def remove_edges_from", "        del self._edge[idx]\n        del self._edge_attr[idx]\n\n    def remove_edges_from", "R-INC", "Hypergraph.remove_edge"),
+    M("add_edge-return-between-paired-writes", HG, "            self._node[node].add(uid)\n            self._edge[uid].add(node)\n", "            self._node[node].add(uid)\n            if len(self._edge[uid]) > 10000:\n                return\n            self._edge[uid].add(node)\n", ["R-INC", "R-ATTR"], "Hypergraph.add_edge"),
+    M("add_edge-none-check-after-first-write", HG, "        members = set(members)\n        if None in members:\n            raise XGIError(\"None cannot be a node\")\n\n        if idx in self._edge.keys():  # check that uid is not present yet\n            warn(f\"uid {idx} already exists, cannot add edge {members}\")\n            return\n\n        uid = next(self._edge_uid) if idx is None else idx\n\n        self._edge[uid] = set()\n", "        members = set(members)\n\n        if idx in self._edge.keys():  # check that uid is not present yet\n            warn(f\"uid {idx} already exists, cannot add edge {members}\")\n            return\n\n        uid = next(self._edge_uid) if idx is None else idx\n\n        self._edge[uid] = set()\n        if None in members:\n            raise XGIError(\"None cannot be a node\")\n", "R-EXC", "Hypergraph.add_edge"),
+    M("add_edge-no-none-check", HG, "        members = set(members)\n        if None in members:\n            raise XGIError(\"None cannot be a node\")\n", "        members = set(members)\n", "R-EXC", "Hypergraph.add_edge"),
+    M("bulk-iterates-caller-iterable-twice", HG, "                try:\n                    members = list(members)\n                    edge = set(members)\n                    if None in edge:\n                        raise XGIError(\"None cannot be a node\")\n                    self._edge[idx] = edge\n                except TypeError as e:\n                    raise XGIError(\"Invalid ebunch format\") from e\n                for n in members:\n                    if n not in self._node:", "                try:\n                    edge = set(members)\n                    if None in edge:\n                        raise XGIError(\"None cannot be a node\")\n                    self._edge[idx] = edge\n                except TypeError as e:\n                    raise XGIError(\"Invalid ebunch format\") from e\n                for n in members:\n                    if n not in self._node:", "R-ONCE", "Hypergraph.add_edges_from"),
+    M("weak-removal-forgets-edge-side", HG, "            for edge in edge_neighbors:\n                self._edge[edge].remove(n)\n                if not self._edge[edge] and remove_empty:", "            for edge in edge_neighbors:\n                if not self._edge[edge] and remove_empty:", "R-INC", "Hypergraph.remove_node"),
+    M("strong-removal-skips-other-members", HG, "                for node in node_neighbors.difference({n}):\n                    self._node[node].remove(e)\n        else:  # weak removal", "        else:  # weak removal", "R-INC", "Hypergraph.remove_node"),
+    M("remove_empty-deletes-nonempty-edge", HG, "                if not self._edge[edge] and remove_empty:\n                    del self._edge[edge]\n                    del self._edge_attr[edge]\n\n    def remove_nodes_from", "                if remove_empty:\n                    del self._edge[edge]\n                    del self._edge_attr[edge]\n\n    def remove_nodes_from", "R-INC", "Hypergraph.remove_node"),
+    M("add_node_to_edge-one-sided", HG, "        self._edge[edge].add(node)\n        self._node[node].add(edge)\n", "        self._edge[edge].add(node)\n", "R-INC", "add_node_to_edge"),
+    M("add_node-no-attr-record", HG, "        if node not in self._node:\n            self._node[node] = set()\n            self._node_attr[node] = self._node_attr_dict_factory()\n        self._node_attr[node].update(attr)\n\n    def add_nodes_from", "        if node not in self._node:\n            self._node[node] = set()\n        if attr:\n            self._node_attr[node] = self._node_attr_dict_factory()\n            self._node_attr[node].update(attr)\n\n    def add_nodes_from", "R-ATTR", "Hypergraph.add_node"),
+    M("clear_edges-keeps-memberships", HG, "        for node in self.nodes:\n            self._node[node] = set()\n        self._edge.clear()", "        self._edge.clear()", "R-INC", "clear_edges"),
+    M("double_edge_swap-forgets-one-membership", HG, "        self._node[n_id1] = temp_memberships1\n        self._node[n_id2] = temp_memberships2\n", "        self._node[n_id1] = temp_memberships1\n", "R-INC", "double_edge_swap"),
+    M("remove_node_from_edge-raise-after-write", HG, "        elif node not in self._edge[edge]:\n            raise XGIError(f\"Edge {edge} does not contain node {node}\")\n        else:\n            self._edge[edge].remove(node)\n\n        self._node[node].remove(edge)\n", "        else:\n            self._edge[edge].discard(node)\n\n        if edge not in self._node[node]:\n            raise XGIError(f\"Edge {edge} does not contain node {node}\")\n        self._node[node].remove(edge)\n", ["R-EXC", "R-INC"], "remove_node_from_edge"),
+    M("external-table-writer", UT, "    net.clear(remove_net_attr=False)\n", "    net.clear(remove_net_attr=False)\n    for n in node_dict.values():\n        net._node[n] = set()\n", "R-ENC", "convert_labels_to_integers"),
+    M("shuffle-writes-one-side-only", HG, "        for n_id in e1_new & e2:\n            self._node[n_id].remove(e_id2)\n            self._node[n_id].add(e_id1)\n\n        for n_id in e2_new & e1:\n            self._node[n_id].remove(e_id1)\n            self._node[n_id].add(e_id2)\n", "", "R-BOTH", "random_edge_shuffle"),
+    {"kind": "refactor", "name": "rename-locals", "edits": [{"file": HG, "old": "edge_neighbors", "new": "incident", "all": True, "count": 0}]},
+    R2("extract-create-if-absent-helper", [
+        (HG, "        for node in members:\n            if node not in self._node:\n                self._node[node] = set()\n                self._node_attr[node] = self._node_attr_dict_factory()\n            self._node[node].add(uid)\n            self._edge[uid].add(node)\n", "        for node in members:\n            self._ensure_node(node)\n            self._node[node].add(uid)\n            self._edge[uid].add(node)\n"),
+        (HG, "    def add_nodes_from(self, nodes_for_adding, **attr):", "    def _ensure_node(self, node):\n        if node not in self._node:\n            self._node[node] = set()\n            self._node_attr[node] = self._node_attr_dict_factory()\n\n    def add_nodes_from(self, nodes_for_adding, **attr):"),
+    ]),
+    R("purge-loop-over-set-copy", HG, "        for node in self._edge[idx].copy():\n            self._node[node].remove(idx)\n        del self._edge[idx]\n        del self._edge_attr[idx]\n\n    def remove_edges_from", "        members = set(self._edge[idx])\n        del self._edge_attr[idx]\n        del self._edge[idx]\n        for node in members:\n            self._node[node].remove(idx)\n\n    def remove_edges_from"),
+    R("weak-removal-discard", HG, "            for edge in edge_neighbors:\n                self._edge[edge].remove(n)\n", "            for edge in edge_neighbors:\n                self._edge[edge].discard(n)\n"),
+]
+
+# --------------------------------------------------------------------------- C02
+VARIANTS["C02"] = [
+    M("strong-removal-no-purge", DH, "                for node in members[\"in\"].difference({n}):\n                    self._node[node][\"out\"].remove(edge)\n                for node in members[\"out\"].difference({n}):\n                    self._node[node][\"in\"].remove(edge)\n", "", "R-INC", "DiHypergraph.remove_node"),
+    M("strong-removal-same-side", DH, "                for node in members[\"in\"].difference({n}):\n                    self._node[node][\"out\"].remove(edge)\n", "                for node in members[\"in\"].difference({n}):\n                    self._node[node][\"in\"].remove(edge)\n", ["R-INC", "R-EXC"], "DiHypergraph.remove_node"),
+    M("add_edge-head-registered-as-out", DH, "            self._node[node][\"in\"].add(uid)\n            self._edge[uid][\"out\"].add(node)\n", "            self._node[node][\"out\"].add(uid)\n            self._edge[uid][\"out\"].add(node)\n", "R-INC", "DiHypergraph.add_edge"),
+    M("add_node_to_edge-same-direction", DH, "        if direction == \"in\":\n            ed = \"in\"\n            nd = \"out\"\n        elif direction == \"out\":\n            ed = \"out\"\n            nd = \"in\"\n        else:\n            raise XGIError(\"Invalid direction!\")\n\n        if edge not in self._edge:\n            self._edge[edge] = {\"in\": set(), \"out\": set()}", "        if direction == \"in\":\n            ed = \"in\"\n            nd = \"in\"\n        elif direction == \"out\":\n            ed = \"out\"\n            nd = \"in\"\n        else:\n            raise XGIError(\"Invalid direction!\")\n\n        if edge not in self._edge:\n            self._edge[edge] = {\"in\": set(), \"out\": set()}", "R-INC", "add_node_to_edge"),
+    M("remove_edge-forgets-heads", DH, "        for node in edge[\"in\"]:\n            self._node[node][\"out\"].remove(idx)\n        for node in edge[\"out\"]:\n            self._node[node][\"in\"].remove(idx)\n\n        del self._edge[idx]\n        del self._edge_attr[idx]\n\n    def remove_edges_from", "        for node in edge[\"in\"]:\n            self._node[node][\"out\"].remove(idx)\n\n        del self._edge[idx]\n        del self._edge_attr[idx]\n\n    def remove_edges_from", "R-INC", "DiHypergraph.remove_edge"),
+    M("weak-removal-only-tails", DH, "            for edge in edge_neighbors[\"out\"]:\n                self._edge[edge][\"in\"].remove(n)\n", "", "R-INC", "DiHypergraph.remove_node"),
+    M("weak-removal-empty-check-one-side", DH, "                if (\n                    not self._edge[edge][\"in\"]\n                    and not self._edge[edge][\"out\"]\n                    and remove_empty\n                ):", "                if not self._edge[edge][\"in\"] and remove_empty:", "R-INC", "DiHypergraph.remove_node"),
+    M("bulk-dict-no-attr-record", DH, "                    self._node[n][\"out\"].add(idx)\n                self._edge_attr[idx] = self._edge_attr_dict_factory()\n", "                    self._node[n][\"out\"].add(idx)\n", "R-ATTR", "DiHypergraph.add_edges_from"),
+    M("add_edge-no-none-check", DH, "        if None in set(tail) or None in set(head):\n            raise XGIError(\"None cannot be a node\")\n", "", "R-EXC", "DiHypergraph.add_edge"),
+    M("bulk-none-check-tail-only", DH, "                    tail = list(members[0])\n                    head = list(members[1])\n                    edge = {\"in\": set(tail), \"out\": set(head)}\n                    if None in edge[\"in\"] or None in edge[\"out\"]:", "                    tail = list(members[0])\n                    head = list(members[1])\n                    edge = {\"in\": set(tail), \"out\": set(head)}\n                    if None in edge[\"in\"]:", "R-EXC", "DiHypergraph.add_edges_from"),
+    M("remove_node_from_edge-wrong-dual", DH, "        self._node[node][nd].remove(edge)\n\n        if not self._edge[edge][\"in\"]", "        self._node[node][ed].remove(edge)\n\n        if not self._edge[edge][\"in\"]", ["R-INC", "R-EXC"], "remove_node_from_edge"),
+    R("strong-removal-single-union-loop-correct", DH, "                for node in members[\"in\"].difference({n}):\n                    self._node[node][\"out\"].remove(edge)\n                for node in members[\"out\"].difference({n}):\n                    self._node[node][\"in\"].remove(edge)\n", "                for node in members[\"in\"].union(members[\"out\"]).difference({n}):\n                    if node in members[\"in\"]:\n                        self._node[node][\"out\"].remove(edge)\n                    if node in members[\"out\"]:\n                        self._node[node][\"in\"].remove(edge)\n"),
+    R("remove_edge-loops-swapped", DH, "        for node in edge[\"in\"]:\n            self._node[node][\"out\"].remove(idx)\n        for node in edge[\"out\"]:\n            self._node[node][\"in\"].remove(idx)\n\n        del self._edge[idx]\n        del self._edge_attr[idx]\n\n    def remove_edges_from", "        for node in edge[\"out\"]:\n            self._node[node][\"in\"].remove(idx)\n        for node in edge[\"in\"]:\n            self._node[node][\"out\"].remove(idx)\n\n        del self._edge_attr[idx]\n        del self._edge[idx]\n\n    def remove_edges_from"),
+]
+
 
 def variants_for(prop):
     return list(VARIANTS.get(prop, []))
